@@ -107,6 +107,48 @@ Proof.
     destruct (Nat.eqb idx 5); apply IH; lia.
 Qed.
 
+(* both line searches evaluate the energy at the same sequence of trial points *)
+Lemma ls_trace_sim : forall pos g e k idx gs dd lp le F, (S k + idx = 9)%nat -> (S k <= F)%nat ->
+  ls_loop_trace n f hessp c F pos g e {| lstatus := (-2)%Z; lit := idx; lpos := lp; len := le; ldd := dd; lgs := gs |}
+  = ls_eager_trace n f hessp c (S k) idx pos g e gs dd.
+Proof.
+  intros pos g e. induction k as [|k IH]; intros idx gs dd lp le F Hk HF;
+    (destruct F as [|F]; [lia|]); cbn [Model.ls_loop_trace Model.ls_eager_trace lstatus];
+    change (Z.ltb (-2) (-1)) with true; cbv iota;
+    set (v := {| lstatus := (-2)%Z; lit := idx; lpos := lp; len := le; ldd := dd; lgs := gs |});
+    destruct (Qcleb (f (axpy n (- gs) dd pos)) e) eqn:EA.
+  - rewrite (ls_step_acc pos g e v eq_refl EA). cbn [lpos]. f_equal.
+    destruct F; cbn [Model.ls_loop_trace lstatus]; reflexivity.
+  - rewrite (ls_step_rej pos g e v eq_refl EA). unfold v; cbn [lit ldd lgs lpos]. f_equal.
+    assert (idx = 8)%nat by lia. subst idx. cbn [Nat.eqb].
+    destruct F; cbn [Model.ls_loop_trace Model.ls_eager_trace lstatus]; reflexivity.
+  - rewrite (ls_step_acc pos g e v eq_refl EA). cbn [lpos]. f_equal.
+    destruct F; cbn [Model.ls_loop_trace lstatus]; reflexivity.
+  - rewrite (ls_step_rej pos g e v eq_refl EA). unfold v; cbn [lit ldd lgs lpos]. f_equal.
+    assert (H8 : Nat.eqb idx 8 = false) by (apply Nat.eqb_neq; lia). rewrite H8.
+    destruct (Nat.eqb idx 5); apply IH; lia.
+Qed.
+
+Lemma ls_trace_eq : forall pos g e dd,
+  ls_loop_trace n f hessp c 10 pos g e (ls_init pos g dd) = ls_eager_trace n f hessp c 9 0 pos g e 1 dd.
+Proof. intros. unfold ls_init. apply (ls_trace_sim pos g e 8 0); lia. Qed.
+
+(* ... namely x - s*dd for s = 1, 1/2, 1/4, 1/8, 1/16, 1/32 and then x - s*rd for s = 1, 1/2, 1/4 (rd the reset
+   direction), cut after the first acceptable one *)
+Fixpoint upto_first_ok (pos : vec) (e : Qc) (l : list (Qc * vec)) : list vec :=
+  match l with
+  | [] => []
+  | (gs, dd) :: t => let np := axpy n (- gs) dd pos in np :: (if Qcleb (f np) e then [] else upto_first_ok pos e t)
+  end.
+
+Lemma ls_eager_trace_trials : forall pos g e dd,
+  ls_eager_trace n f hessp c 9 0 pos g e 1 dd = upto_first_ok pos e (trials pos g dd).
+Proof.
+  intros. unfold trials. cbn [Model.ls_eager_trace upto_first_ok Nat.eqb].
+  repeat (match goal with |- context [Qcleb ?a ?b] => destruct (Qcleb a b) end; [reflexivity|]).
+  reflexivity.
+Qed.
+
 Lemma ls_static_eq : forall pos g e dd,
   match ls_eager 9 0 pos g e 1 dd with
   | Some (np, ne, gs', d', idx') =>
